@@ -613,7 +613,10 @@ def run_hash(ctx):
         combos = list(itertools.combinations(range(5), n))
         for keys in combos:
             for _ in range(ctx.budget(2, 12)):
-                base_sets.append(tuple((k, rng.randrange(0, 12)) for k in keys))
+                base_sets.append(tuple((k, rng.randrange(-6, 12)) for k in keys))
+    # deterministic corpus: -1.0 / -2.0 (fixed defect 3d907c5: hash(-1) == hash(-2)), 0.0, equal values under different names
+    base_sets = [((0, -2),), ((0, -4),), ((0, -2), (1, -4)), ((0, -4), (1, -2)), ((0, 0), (1, 0)), ((0, 3), (1, 3), (2, 3)),
+                 ((0, -2), (1, -2), (2, -4), (3, -4))] + base_sets
     base_sets = list(dict.fromkeys(base_sets))
     terms, impl = [], []
     for bs in base_sets:
@@ -630,6 +633,34 @@ def run_hash(ctx):
                           predicate='d == d2 -> make_dict_hash(d) == make_dict_hash(d2)')
         impl.append(keys)
         terms.append('map key_of [' + '; '.join(gdict(pm) for pm in perms) + ']')
+    # beyond the quantifier of the property (1..4 entries): sampled orderings of 5..7-entry dictionaries
+    for n in (5, 6, 7):
+        for rep in range(ctx.budget(3, 12)):
+            bs = [(k, (rep * 5 + k * 3) % 9 - 3) for k in range(n)]
+            ks = set()
+            orders = [list(bs), list(reversed(bs)), bs[1:] + bs[:1], bs[::2] + bs[1::2]]
+            for _ in range(ctx.budget(8, 40)):
+                o = list(bs)
+                rng.shuffle(o)
+                orders.append(o)
+            for oi, o in enumerate(orders):
+                ks.add(make_dict_hash(py_dict(o, flavour=oi % 2)))
+                ctx.evaluations += 1
+            ctx.count(f'dict_entries:{n}(sampled)', len(orders))
+            if len(ks) != 1:
+                ctx.violation('make_dict_hash', 'depends-on-insertion-order',
+                              f'equal {n}-entry dictionaries filled in different orders give different keys',
+                              case={'kind': 'hash', 'items': bs}, impl=sorted(ks)[:4],
+                              predicate='d == d2 -> make_dict_hash(d) == make_dict_hash(d2)')
+    # the impl-side equality pattern also without the model: different small dictionaries, different keys
+    seen = {}
+    for bs, ik in zip(base_sets, impl):
+        canon = frozenset(bs)
+        if ik[0] in seen and seen[ik[0]] != canon:
+            ctx.violation('make_dict_hash', 'distinct-dictionaries-same-key',
+                          'two different dictionaries get the same key (PDFSet.add_pdf would reject the second)',
+                          case={'kind': 'hash', 'items': list(bs), 'items2': sorted(seen[ik[0]])}, impl=ik[0])
+        seen[ik[0]] = canon
     # None == {} ; non-dict raises
     if make_dict_hash(None) != make_dict_hash({}):
         ctx.violation('make_dict_hash', 'none-differs-from-empty', 'make_dict_hash(None) != make_dict_hash({})',
@@ -664,8 +695,11 @@ def run_hash(ctx):
             a, b = sorted(same_m - same_i)[0]
             ctx.disagree('make_dict_hash', {'kind': 'hash', 'items': list(base_sets[a]), 'items2': list(base_sets[b])},
                          'different keys', 'same key')
-        if same_i - same_m:
-            ctx.count('hash_collisions_between_different_dictionaries', len(same_i - same_m))
+        for a, b in sorted(same_i - same_m)[:3]:
+            ctx.violation('make_dict_hash', 'distinct-dictionaries-same-key',
+                          'two different dictionaries get the same key (PDFSet.add_pdf would reject the second)',
+                          case={'kind': 'hash', 'items': list(base_sets[a]), 'items2': list(base_sets[b])},
+                          impl=reps_i[a], predicate='d != d2 -> make_dict_hash(d) != make_dict_hash(d2) (small numeric values)')
         t = vals[-1]
         if (nd, 0) != ('TypeError' if t[0] == -3 else 'returned', t[1]) or t[2] < 0:
             ctx.disagree('make_dict_hash', {'kind': 'hash', 'items': 'non-dict / None'}, nd, list(t))
@@ -686,8 +720,10 @@ def run_hash(ctx):
     cases.append([('add', (1, True, 0), ('dict', ((0, 4), (1, 6)))), ('get', ('dict', ((1, 6), (0, 4)))),
                   ('has', ('dict', ((1, 6), (0, 4)))), ('add', (2, True, 0), ('dict', ((1, 6), (0, 4)))),
                   ('getk', ((1, 6), (0, 4)))])
+    cases.append([('add', (1, True, 0), ('dict', ((0, -2),))), ('add', (2, True, 0), ('dict', ((0, -4),))),
+                  ('get', ('dict', ((0, -2),))), ('get', ('dict', ((0, -4),))), ('getk', ((0, -4),)), ('has', ('dict', ((0, -6),)))])
     while len(cases) < n_cases:
-        pool = [tuple((k, rng.randrange(0, 6)) for k in rng.sample(range(4), rng.randrange(1, 5)))
+        pool = [tuple((k, rng.randrange(-4, 6)) for k in rng.sample(range(4), rng.randrange(1, 5)))
                 for _ in range(rng.randrange(1, 4))]
         ops = []
         pid = 0
@@ -795,6 +831,9 @@ def bits_or(s, m):
     return any((s >> b) & 1 for b in range(96) if (m >> b) & 1) or (m < 0 and s < 0)
 
 
+JOINT_NAMES = ['aa', 'zz', 'dec', 'mm', 'b1', 'ra', 'run', 'time']      # index = model code; deliberately not sorted by use
+
+
 def run_stages(ctx):
     from skyllh.core.datafields import DataFieldStages as DFS, DataFields
     rng = ctx.rng
@@ -878,15 +917,20 @@ def run_stages(ctx):
     # get_joint_names
     jn, terms_jn, impl_jn = [], [], []
     for _ in range(ctx.budget(40, 400)):
-        fields = [(i, rng.randrange(16)) for i in range(rng.randrange(0, 8))]
+        # declaration order is NOT the sorted order of the names
+        fields = [(i, rng.randrange(16)) for i in rng.sample(range(8), rng.randrange(0, 8))]
+        if _ == 0:
+            fields = [(7, 4), (2, 4), (5, 12), (0, 1), (3, 4)]       # names time, dec, ra, aa, ... declared unsorted
         arg = ('int', rng.randrange(16)) if rng.random() < 0.5 else ('seq', [rng.randrange(16) for _ in range(rng.randrange(0, 3))])
+        if _ == 0:
+            arg = ('int', 4)
         jn.append((fields, arg))
-        d = {f'f{i}': st for i, st in fields}
+        d = {JOINT_NAMES[i]: st for i, st in fields}
         r = DataFields.get_joint_names(d, arg[1])
-        impl_jn.append([int(n[1:]) for n in r])
+        impl_jn.append([JOINT_NAMES.index(n) for n in r])
         ms = [arg[1]] if arg[0] == 'int' else arg[1]
         if impl_jn[-1] != [i for i, st in fields if any(bits_or(st, m) for m in ms)]:
-            ctx.violation('DataFields.get_joint_names', 'wrong-field-set', f'{fields} {arg}',
+            ctx.violation('DataFields.get_joint_names', 'wrong-fields-or-order', f'{fields} {arg}',
                           case={'kind': 'joint', 'fields': fields, 'stages': arg[1]}, impl=impl_jn[-1])
         g = f'(SInt {zlit(arg[1])})' if arg[0] == 'int' else f'(SSeq {zlist(arg[1])})'
         terms_jn.append(f'joint_names {gdict(fields)} {g}')
@@ -973,6 +1017,7 @@ class CfgWorld:
         self.insts = []
         self.gops = []         # Gallina wop terms
         self.rcs = []
+        self.yaml_files = {}
 
     # -- user dictionaries (the model builds them with the same steps)
     def user_new(self):
@@ -1038,13 +1083,22 @@ class CfgWorld:
         self.gops.append(f'WFromDict {u}')
 
         def f():
-            with tempfile.NamedTemporaryFile('w', suffix='.yaml', delete=False) as fh:
-                yaml.safe_dump(self.users[u], fh, sort_keys=False)
-            try:
-                self.insts.append(config.Config.from_yaml(fh.name))
-            finally:
-                os.unlink(fh.name)
+            # ONE file per user dictionary: a second from_yaml reads the same path (a memo on the path would
+            # hand the same nested dictionaries to both instances)
+            if u not in self.yaml_files:
+                with tempfile.NamedTemporaryFile('w', suffix='.yaml', delete=False) as fh:
+                    yaml.safe_dump(self.users[u], fh, sort_keys=False)
+                self.yaml_files[u] = fh.name
+            self.insts.append(config.Config.from_yaml(self.yaml_files[u]))
         self._do(f)
+
+    def cleanup(self):
+        for fn in self.yaml_files.values():
+            try:
+                os.unlink(fn)
+            except OSError:
+                pass
+        self.yaml_files = {}
 
     def mutate(self, i, e):
         """e = (method, args) ; returns nothing, records the Gallina step"""
@@ -1081,6 +1135,13 @@ class CfgWorld:
             path, k, v = e[1], e[2], e[3]
             g = f'(MSetItem {zlist([cd.key(x) for x in path])} {cd.key(k)} {cd.atom(v)})'
             f = lambda: self._walk(c, path).__setitem__(k, v)
+        elif kind == 'delitem':
+            path, k = e[1], e[2]
+            g = f'(MDelItem {zlist([cd.key(x) for x in path])} {cd.key(k)})'
+            if e[3] == 'pop':
+                f = lambda: self._walk(c, path).pop(k)
+            else:
+                f = lambda: self._walk(c, path).__delitem__(k)
         else:
             raise ValueError(e)
         self.gops.append(f'WMut {i} {g}')
@@ -1118,6 +1179,7 @@ def cfg_edits():
         ('item', ['debugging'], 'log_format', 'x'), ('item', ['datafields'], 'run', 3),
         ('item', ['caching', 'pdf'], 'MultiDimGridPDF', True), ('item', [], 'newkey', 5),
         ('item', ['units', 'defaults', 'fluxes'], 'energy', units.TeV),
+        ('delitem', ['datafields'], 'run', 'pop'), ('delitem', ['caching', 'pdf'], 'no_such_key', 'del'),
     ]
 
 
@@ -1181,6 +1243,7 @@ def cfg_scenario(ctx, codes, base, constr, udict, e1, e2):
                 bad.append(('Config', 'new-instance-differs-from-base', 'Config() != _BASECONFIG'))
     finally:
         config._BASECONFIG = saved_base
+        w.cleanup()
     return w, obs, bad
 
 
@@ -1207,7 +1270,7 @@ def run_config(ctx):
     constrs = [('new', 'new'), ('from', 'from'), ('new', 'from'), ('from', 'new')]
     if not ctx.thorough():
         constrs = [('from', 'from'), ('new', 'from')]
-    constrs += [('yaml', 'from'), ('new', 'yaml')]
+    constrs += [('yaml', 'yaml'), ('yaml', 'from'), ('new', 'yaml')]
     scen = []
     for ci, constr in enumerate(constrs):
         for a, e1 in enumerate(edits):
@@ -1633,14 +1696,34 @@ def probe_stages(ctx):
         for m in (0, 3, 5, 12, 15):            # int masks incl. 0 and multi-bit, numpy stage
             if (bool(DFS.and_check(np.int64(s), m)), bool(DFS.or_check(np.int64(s), m))) != (bits_and(s, m), bits_or(s, m)):
                 ctx.violation('DataFieldStages.and_check', 'not-bitwise-all', f'numpy stage {s} mask {m}', case=case)
-    fields = {'a': 1, 'b': 6, 'c': 0, 'd': 8}
+    fields = {'time': 1, 'dec': 6, 'c': 0, 'ra': 8, 'ang_err': 2}
     snap = dict(fields)
     r1 = DataFields.get_joint_names(fields, [2, 8])
     r1.append('x')
     r2 = DataFields.get_joint_names(fields, (2, 8))
-    if fields != snap or list(fields) != list(snap) or r2 != ['b', 'd'] or DataFields.get_joint_names(fields, 0) != []:
+    if r2 != ['dec', 'ra', 'ang_err']:
+        ctx.violation('DataFields.get_joint_names', 'wrong-fields-or-order', f'{r2}: not the declaration order', case=case)
+    # the stage constants are distinct single bits
+    consts = [DFS.DATAPREPARATION_EXP, DFS.DATAPREPARATION_MC, DFS.ANALYSIS_EXP, DFS.ANALYSIS_MC]
+    for i, a in enumerate(consts):
+        for j, b in enumerate(consts):
+            if not isinstance(a, int) or a <= 0 or a & (a - 1) or bool(DFS.or_check(a, b)) != (i == j) \
+                    or bool(DFS.and_check(a, b)) != (i == j):
+                ctx.violation('DataFieldStages', 'stage-constants-not-distinct-single-bits', f'{consts}', case=case)
+    if fields != snap or list(fields) != list(snap) or DataFields.get_joint_names(fields, 0) != []:
         ctx.violation('DataFields.get_joint_names', 'modifies-argument-or-returned-list-aliased', str(r2), case=case)
     ctx.case({'probe': 'stages'})
+
+
+CONFIG_MEMBERS = ['disable_tracing', 'enable_tracing', 'from_dict', 'from_yaml', 'get_wd', 'is_tracing_enabled',
+                  'set_enable_tracing', 'set_internal_units', 'set_ncpu', 'set_wd', 'to_internal_time_unit', 'wd_filename']
+CONFIG_DUNDERS_OK = {'__module__', '__qualname__', '__doc__', '__init__', '__dict__', '__weakref__', '__firstlineno__',
+                     '__static_attributes__', '__annotations__', '__orig_bases__', '__parameters__'}
+
+
+def usnap_yaml():
+    return {'debugging': {'enable_tracing': True, 'log_format': 'y'}, 'extra': {'deep': {'x': 1}},
+            'project': {'working_directory': '/y'}}
 
 
 def probe_config(ctx):
@@ -1714,6 +1797,57 @@ def probe_config(ctx):
                 or c2['extra']['deep']['x'] != [1, 2] or c2.is_tracing_enabled is not True:
             ctx.violation('Config.from_dict', 'edit-visible-in-user-dictionary-or-other-instance', '', case=case)
         ctx.case({'probe': 'config-from-dict'})
+        # from_yaml: two instances from ONE file, edits of one, a third one afterwards
+        import tempfile
+        import yaml
+        with tempfile.NamedTemporaryFile('w', suffix='.yaml', delete=False) as fh:
+            yaml.safe_dump(usnap_yaml(), fh, sort_keys=False)
+        try:
+            y1 = config.Config.from_yaml(fh.name)
+            y2 = config.Config.from_yaml(fh.name)
+            oy = observe(y2)
+            ref = observe(config.Config.from_dict(usnap_yaml()))
+            if observe(y1) != ref or oy != ref:
+                ctx.violation('Config.from_yaml', 'content-differs-from-from_dict-of-the-file-content', '', case=case)
+            for e in edits:
+                e(y1)
+            y1['debugging']['log_format'] = 'edited'
+            y1['extra']['deep']['x'] = 'edited'
+            y3 = config.Config.from_yaml(fh.name)
+            if observe(y2) != oy or observe(y3) != ref:
+                ctx.violation('Config.from_yaml', 'edit-visible-in-other-instance-from-the-same-file',
+                              'an edit of one instance shows in another instance loaded from the same YAML file', case=case)
+            if set(dict_ids(y1)) & (set(dict_ids(y2)) | set(dict_ids(y3))) or set(dict_ids(y2)) & set(dict_ids(y3)):
+                ctx.violation('Config.from_yaml', 'instances-share-mutable-state', 'instances from one YAML file share a dictionary', case=case)
+            if dict(config.Config.from_yaml(None)) != pristine:
+                ctx.violation('Config.from_yaml', 'template-polluted-by-other-instance', 'from_yaml(None) != base configuration', case=case)
+        finally:
+            os.unlink(fh.name)
+        ctx.case({'probe': 'config-from-yaml'})
+        # hidden per-instance state and the list of public members this check knows (fail when it is stale)
+        for c in (a, before, c1, y1):
+            if vars(c):
+                ctx.violation('Config', 'hidden-instance-attributes', f'{sorted(vars(c))}: state outside the dictionary content',
+                              case=case)
+        members = sorted(n for n in vars(config.Config) if not n.startswith('__'))
+        dunders = sorted(n for n in vars(config.Config) if n.startswith('__') and n not in CONFIG_DUNDERS_OK)
+        if members != CONFIG_MEMBERS or dunders:
+            ctx.violation('Config', 'public-member-not-covered-by-the-check',
+                          f'Config defines {sorted(set(members) ^ set(CONFIG_MEMBERS)) + dunders}: the list of mutators / accessors of '
+                          'harness/c20.py (CONFIG_MEMBERS, cfg_edits, probe_config, model cmut) must be extended first', case=case)
+        # DECLARED open finding: Python's shallow copy of a Config is a Config instance sharing every nested dict
+        sc = copy.copy(config.Config())
+        src = config.Config()
+        sc2 = copy.copy(src)
+        if isinstance(sc2, config.Config) and (set(dict_ids(sc2)) - {id(sc2)}) & set(dict_ids(src)):
+            sc2.enable_tracing()
+            if src.is_tracing_enabled is True:
+                ctx.violation('copy.copy(Config)', 'shallow-copy-shares-nested-dictionaries',
+                              'copy.copy(cfg) is a Config instance whose nested dictionaries are those of cfg',
+                              case=dict(case, probe='shallow-copy'),
+                              predicate='separate Config instances never share mutable state')
+        if dict(config.Config()) != pristine:
+            ctx.violation('Config.__init__', 'template-polluted-by-other-instance', 'after the shallow-copy probe', case=case)
     finally:
         sys.path[:] = saved_path
 
